@@ -1026,40 +1026,43 @@ func init() {
 				}
 				// The profile endpoint is only consulted for claims the ID token LACKS: the same faults with a token that lacks the groups and
 				// preferred_username claims, on the login and on the refresh (whose answer carries such a token)
-				for _, fl := range flows[:2] {
-					for _, k := range kinds {
-						if k.name == "no-id-token" || k.name == "no-access-token" || k.name == "garbage-id-token" || k.name == "wrong-types" || k.name == "no-id-token-no-expiry" || k.name == "only-refresh-token" || strings.HasPrefix(k.name, "id-token-") {
-							continue
-						}
-						k := k
-						var rs reqSpec
-						var b *browser
-						lack := map[string]interface{}{"groups": nil, "preferred_username": nil}
-						if fl.name == "refresh" {
-							rs, b = fl.setup()
-							e.idp.mu.Lock()
-							e.idp.claimOverride, e.idp.refreshReturnsIDToken = lack, true
-							e.idp.mu.Unlock()
-						} else {
-							e.idp.mu.Lock()
-							e.idp.claimOverride = lack
-							e.idp.mu.Unlock()
-							rs, b = fl.setup()
-						}
-						e.idp.mu.Lock()
-						e.idp.fault = func(endpoint string, n int, w http.ResponseWriter, r *http.Request) bool {
-							if endpoint == "/userinfo" {
-								k.f(w, r)
-								return true
+				// (… and with a token that lacks ONLY the groups: the look-up that fails is then not the last one the session
+				// builder makes — an error that only the last look-up could raise would go unnoticed)
+				for li, lack := range []map[string]interface{}{{"groups": nil, "preferred_username": nil}, {"groups": nil}} {
+					for _, fl := range flows[:2] {
+						for _, k := range kinds {
+							if k.name == "no-id-token" || k.name == "no-access-token" || k.name == "garbage-id-token" || k.name == "wrong-types" || k.name == "no-id-token-no-expiry" || k.name == "only-refresh-token" || strings.HasPrefix(k.name, "id-token-") {
+								continue
 							}
-							return false
+							k := k
+							var rs reqSpec
+							var b *browser
+							if fl.name == "refresh" {
+								rs, b = fl.setup()
+								e.idp.mu.Lock()
+								e.idp.claimOverride, e.idp.refreshReturnsIDToken = lack, true
+								e.idp.mu.Unlock()
+							} else {
+								e.idp.mu.Lock()
+								e.idp.claimOverride = lack
+								e.idp.mu.Unlock()
+								rs, b = fl.setup()
+							}
+							e.idp.mu.Lock()
+							e.idp.fault = func(endpoint string, n int, w http.ResponseWriter, r *http.Request) bool {
+								if endpoint == "/userinfo" {
+									k.f(w, r)
+									return true
+								}
+								return false
+							}
+							e.idp.mu.Unlock()
+							v, real := e.serveCase(rs, nil, fmt.Sprintf("idp:%s:profile-needed%d:%s", fl.name, li, k.name))
+							resetIDP(e.idp)
+							hardFailure := k.name == "500" || k.name == "503-json" || k.name == "400" || k.name == "404" || k.name == "reset"
+							check(fl.name, fmt.Sprintf("/userinfo(consulted, token lacks %d claim(s)):%s", len(lack), k.name), rs, b, v, real, hardFailure)
+							c.count("idpfault:profile-needed")
 						}
-						e.idp.mu.Unlock()
-						v, real := e.serveCase(rs, nil, "idp:"+fl.name+":profile-needed:"+k.name)
-						resetIDP(e.idp)
-						hardFailure := k.name == "500" || k.name == "503-json" || k.name == "400" || k.name == "404" || k.name == "reset"
-						check(fl.name, "/userinfo(consulted):"+k.name, rs, b, v, real, hardFailure)
-						c.count("idpfault:profile-needed")
 					}
 				}
 				// Re-validation when the refresh failed: a stale session whose ID token does NOT verify against the provider's keys
